@@ -25,6 +25,10 @@ pub const ABI: Abi = Abi { p: 8 };
 pub struct Func {
     pub params: Vec<Ty>,
     pub result: Option<Ty>,
+    /// exported only (interface `sink`, no result): the guest implementation does nothing, so
+    /// every owned handle among the arguments must be dropped by the bindings
+    #[serde(default)]
+    pub sink: bool,
 }
 
 #[derive(Clone, Debug, Hash, Serialize, Deserialize)]
@@ -80,7 +84,7 @@ pub fn world_strategy(allow_map: bool, allow_fixed: bool) -> BoxedStrategy<Proxy
         Ty::Option(_) | Ty::Result(..) | Ty::Tuple(_) | Ty::FixedList(..) => Ty::Record(vec![("w".to_string(), t)]),
         t => t,
     };
-    let func = (prop::collection::vec(value_ty(allow_map, allow_fixed).prop_map(wrap), 0..5), prop::option::weighted(0.8, value_ty(allow_map, allow_fixed))).prop_map(|(params, result)| Func { params, result });
+    let func = (prop::collection::vec(value_ty(allow_map, allow_fixed).prop_map(wrap), 0..5), prop::option::weighted(0.8, value_ty(allow_map, allow_fixed))).prop_map(|(params, result)| Func { params, result, sink: false });
     prop::collection::vec(func, 1..4)
         .prop_flat_map(|funcs| {
             let calls: Vec<BoxedStrategy<Call>> = funcs
@@ -104,18 +108,186 @@ pub fn world_strategy(allow_map: bool, allow_fixed: bool) -> BoxedStrategy<Proxy
         .boxed()
 }
 
+pub fn has_handle(t: &Ty) -> bool {
+    match t {
+        Ty::Own | Ty::Borrow => true,
+        Ty::List(t) | Ty::Option(t) | Ty::FixedList(t, _) => has_handle(t),
+        Ty::Map(k, v) => has_handle(k) || has_handle(v),
+        Ty::Record(fs) => fs.iter().any(|(_, t)| has_handle(t)),
+        Ty::Tuple(ts) => ts.iter().any(has_handle),
+        Ty::Variant(cs) => cs.iter().any(|(_, t)| t.as_ref().map(has_handle).unwrap_or(false)),
+        Ty::Result(a, b) => a.as_deref().map(has_handle).unwrap_or(false) || b.as_deref().map(has_handle).unwrap_or(false),
+        _ => false,
+    }
+}
+
+/// the (handle, owned?) pairs inside a value
+pub fn handles_of(v: &Val, t: &Ty, out: &mut Vec<(u32, bool)>) {
+    match (t, v) {
+        (Ty::Own, Val::Handle(h)) => out.push((*h, true)),
+        (Ty::Borrow, Val::Handle(h)) => out.push((*h, false)),
+        (Ty::List(t), Val::List(l)) | (Ty::FixedList(t, _), Val::List(l)) => l.iter().for_each(|x| handles_of(x, t, out)),
+        (Ty::Option(t), Val::Option(Some(x))) => handles_of(x, t, out),
+        (Ty::Record(fs), Val::Record(l)) => fs.iter().zip(l).for_each(|((_, t), x)| handles_of(x, t, out)),
+        (Ty::Tuple(ts), Val::Tuple(l)) => ts.iter().zip(l).for_each(|(t, x)| handles_of(x, t, out)),
+        (Ty::Variant(cs), Val::Variant(i, Some(x))) => {
+            if let Some((_, Some(t))) = cs.get(*i) {
+                handles_of(x, t, out)
+            }
+        }
+        (Ty::Result(a, _), Val::Result(Ok(Some(x)))) => {
+            if let Some(t) = a {
+                handles_of(x, t, out)
+            }
+        }
+        (Ty::Result(_, b), Val::Result(Err(Some(x)))) => {
+            if let Some(t) = b {
+                handles_of(x, t, out)
+            }
+        }
+        (Ty::Map(k, vt), Val::Map(m)) => m.iter().for_each(|(a, b)| {
+            handles_of(a, k, out);
+            handles_of(b, vt, out)
+        }),
+        _ => {}
+    }
+}
+
+/// give every handle inside `v` a fresh number
+fn renumber(v: &mut Val, t: &Ty, next: &mut u32) {
+    match (t, v) {
+        (Ty::Own | Ty::Borrow, Val::Handle(h)) => {
+            *next += 1;
+            *h = *next;
+        }
+        (Ty::List(t), Val::List(l)) | (Ty::FixedList(t, _), Val::List(l)) => l.iter_mut().for_each(|x| renumber(x, t, next)),
+        (Ty::Option(t), Val::Option(Some(x))) => renumber(x, t, next),
+        (Ty::Record(fs), Val::Record(l)) => fs.iter().zip(l).for_each(|((_, t), x)| renumber(x, t, next)),
+        (Ty::Tuple(ts), Val::Tuple(l)) => ts.iter().zip(l).for_each(|(t, x)| renumber(x, t, next)),
+        (Ty::Variant(cs), Val::Variant(i, Some(x))) => {
+            if let Some((_, Some(t))) = cs.get(*i) {
+                renumber(x, t, next)
+            }
+        }
+        (Ty::Result(a, _), Val::Result(Ok(Some(x)))) => {
+            if let Some(t) = a {
+                renumber(x, t, next)
+            }
+        }
+        (Ty::Result(_, b), Val::Result(Err(Some(x)))) => {
+            if let Some(t) = b {
+                renumber(x, t, next)
+            }
+        }
+        _ => {}
+    }
+}
+
+/// proxy worlds over an imported resource: own/borrow handles directly and nested in records,
+/// variants, options, results, lists and tuples; some functions are sinks
+pub fn resource_world_strategy() -> BoxedStrategy<ProxyWorld> {
+    fn ty(allow_borrow: bool) -> BoxedStrategy<Ty> {
+        let leaf = if allow_borrow { prop_oneof![3 => Just(Ty::Own), 2 => Just(Ty::Borrow), 2 => refabi::gen::scalar(), 1 => Just(Ty::String)].boxed() } else { prop_oneof![3 => Just(Ty::Own), 2 => refabi::gen::scalar(), 1 => Just(Ty::String)].boxed() };
+        leaf.prop_recursive(3, 16, 4, |inner| {
+            prop_oneof![
+                3 => inner.clone().prop_map(|t| Ty::List(Box::new(t))),
+                2 => inner.clone().prop_map(|t| Ty::Option(Box::new(t))),
+                2 => (prop::option::of(inner.clone()), prop::option::of(inner.clone())).prop_map(|(a, b)| Ty::Result(a.map(Box::new), b.map(Box::new))),
+                2 => prop::collection::vec(inner.clone(), 1..4).prop_map(Ty::Tuple),
+                3 => prop::collection::vec(inner.clone(), 1..4).prop_map(|ts| Ty::Record(ts.into_iter().enumerate().map(|(i, t)| (format!("m{i}"), t)).collect())),
+                3 => prop::collection::vec(prop::option::of(inner.clone()), 1..4).prop_map(|ts| Ty::Variant(ts.into_iter().enumerate().map(|(i, t)| (format!("c{i}"), t)).collect())),
+            ]
+        })
+        .boxed()
+    }
+    let wrap = |t: Ty| match t {
+        Ty::Option(_) | Ty::Result(..) | Ty::Tuple(_) | Ty::FixedList(..) => Ty::Record(vec![("w".to_string(), t)]),
+        t => t,
+    };
+    // `list<borrow<res>>` in an exported parameter does not compile (listed C09 finding): borrows
+    // below a list become owned handles
+    fn fix(t: Ty, under_list: bool) -> Ty {
+        match t {
+            Ty::Borrow if under_list => Ty::Own,
+            Ty::List(t) => Ty::List(Box::new(fix(*t, true))),
+            Ty::Option(t) => Ty::Option(Box::new(fix(*t, under_list))),
+            Ty::Result(a, b) => Ty::Result(a.map(|t| Box::new(fix(*t, under_list))), b.map(|t| Box::new(fix(*t, under_list)))),
+            Ty::Tuple(ts) => Ty::Tuple(ts.into_iter().map(|t| fix(t, under_list)).collect()),
+            Ty::Record(fs) => Ty::Record(fs.into_iter().map(|(n, t)| (n, fix(t, under_list))).collect()),
+            Ty::Variant(cs) => Ty::Variant(cs.into_iter().map(|(n, t)| (n, t.map(|t| fix(t, under_list)))).collect()),
+            t => t,
+        }
+    }
+    let func = (prop::collection::vec(ty(true).prop_map(|t| fix(t, false)).prop_map(wrap), 1..4), prop::option::weighted(0.7, ty(false)), prop::bool::weighted(0.35)).prop_map(|(params, result, sink)| Func { result: if sink { None } else { result }, params, sink });
+    prop::collection::vec(func, 1..4)
+        .prop_map(|mut funcs| {
+            // at least one forwarding function and the resource mentioned somewhere
+            funcs[0].sink = false;
+            if !funcs.iter().any(|f| f.params.iter().chain(f.result.iter()).any(has_handle)) {
+                funcs[0].params.push(Ty::Own);
+            }
+            funcs
+        })
+        .prop_flat_map(|funcs| {
+            let calls: Vec<BoxedStrategy<Call>> = funcs
+                .iter()
+                .enumerate()
+                .flat_map(|(i, f)| {
+                    let f = f.clone();
+                    (0..3).map(move |_| {
+                        let ps: Vec<BoxedStrategy<Val>> = f.params.iter().map(refabi::gen::val).collect();
+                        let r: BoxedStrategy<Option<Val>> = match &f.result {
+                            Some(t) => refabi::gen::val(t).prop_map(Some).boxed(),
+                            None => Just(None).boxed(),
+                        };
+                        (ps, r).prop_map(move |(params, result)| Call { func: i, params, result }).boxed()
+                    })
+                })
+                .collect();
+            (Just(funcs), calls)
+        })
+        .prop_map(|(funcs, mut calls)| {
+            // distinct handle numbers everywhere (a handle index names one resource)
+            let mut next = 100u32;
+            for c in calls.iter_mut() {
+                let f = &funcs[c.func];
+                for (v, t) in c.params.iter_mut().zip(&f.params) {
+                    renumber(v, t, &mut next);
+                }
+                if let (Some(v), Some(t)) = (c.result.as_mut(), f.result.as_ref()) {
+                    renumber(v, t, &mut next);
+                }
+            }
+            ProxyWorld { funcs, calls }
+        })
+        .boxed()
+}
+
 impl ProxyWorld {
     /// WIT text of the world (package v:w<k>)
     pub fn wit(&self, k: usize) -> String {
         let mut decls = vec![];
         let mut funcs = String::new();
+        let mut sinks = String::new();
         for (i, f) in self.funcs.iter().enumerate() {
             let ps: Vec<String> = f.params.iter().enumerate().map(|(j, t)| format!("p{j}: {}", refabi::wit_ty(t, &mut decls))).collect();
             let r = f.result.as_ref().map(|t| format!(" -> {}", refabi::wit_ty(t, &mut decls))).unwrap_or_default();
-            funcs.push_str(&format!("  f{i}: func({}){r};\n", ps.join(", ")));
+            if f.sink {
+                sinks.push_str(&format!("  s{i}: func({});\n", ps.join(", ")));
+            } else {
+                funcs.push_str(&format!("  f{i}: func({}){r};\n", ps.join(", ")));
+            }
         }
-        let uses = if decls.is_empty() { String::new() } else { format!("  use t.{{{}}};\n", (0..decls.len()).map(|i| format!("t{i}")).collect::<Vec<_>>().join(", ")) };
-        format!("package v:w{k};\ninterface t {{\n{}}}\ninterface api {{\n{uses}{funcs}}}\nworld w {{\n  import api;\n  export api;\n}}\n", decls.iter().map(|d| format!("  {d}\n")).collect::<String>())
+        let has_res = self.funcs.iter().any(|f| f.params.iter().chain(f.result.iter()).any(has_handle));
+        let mut names: Vec<String> = (0..decls.len()).map(|i| format!("t{i}")).collect();
+        if has_res {
+            names.insert(0, "res".into());
+        }
+        let uses = if names.is_empty() { String::new() } else { format!("  use t.{{{}}};\n", names.join(", ")) };
+        let res_decl = if has_res { "  resource res { constructor(v: u32); get: func() -> u32; }\n" } else { "" };
+        let sink_iface = if sinks.is_empty() { String::new() } else { format!("interface sink {{\n{uses}{sinks}}}\n") };
+        let sink_export = if sinks.is_empty() { "" } else { "  export sink;\n" };
+        format!("package v:w{k};\ninterface t {{\n{res_decl}{}}}\ninterface api {{\n{uses}{funcs}}}\n{sink_iface}world w {{\n  import api;\n  export api;\n{sink_export}}}\n", decls.iter().map(|d| format!("  {d}\n")).collect::<String>())
     }
 
     pub fn flat_params(&self, f: usize) -> Vec<Flat> {
@@ -123,6 +295,14 @@ impl ProxyWorld {
     }
     pub fn flat_result(&self, f: usize) -> Vec<Flat> {
         self.funcs[f].result.as_ref().map(|t| ABI.flatten(t)).unwrap_or_default()
+    }
+    /// core export name of function `f` (package v:w)
+    pub fn export_name(&self, f: usize) -> String {
+        if self.funcs[f].sink {
+            format!("v:w/sink#s{f}")
+        } else {
+            format!("v:w/api#f{f}")
+        }
     }
     pub fn needs_post_return(&self, f: usize) -> bool {
         self.funcs[f].result.as_ref().map(refabi::has_heap).unwrap_or(false)
@@ -343,9 +523,9 @@ fn unpack_rust_ty(ty: &str, e: &str) -> String {
 /// Rewrite the native `unreachable!()` stand-ins of the import declarations into calls of the
 /// host callback and the `--stubs` bodies into forwarding calls. Returns the patched text and
 /// the import table (module, name) in id order.
-pub fn patch_rust_bindings(text: &str, nfuncs: usize) -> Result<(String, Vec<(String, String)>), String> {
+pub fn patch_rust_bindings(text: &str, funcs: &[Func]) -> Result<(String, Vec<(String, String)>), String> {
     let re = regex::Regex::new(
-        r#"#\[link\(wasm_import_module = "([^"]+)"\)\]\s*unsafe extern "C" \{\s*#\[link_name = "([^"]+)"\]\s*fn (wit_import\d+)\(([^)]*)\)\s*(?:->\s*([^;]+))?;\s*\}\s*#\[cfg\(not\(target_arch = "wasm32"\)\)\]\s*unsafe extern "C" fn (wit_import\d+)\(([^)]*)\)\s*(?:->\s*([^\{]+))?\{\s*unreachable!\(\)\s*\}"#,
+        r#"#\[link\(wasm_import_module = "([^"]+)"\)\]\s*unsafe extern "C" \{\s*#\[link_name = "([^"]+)"\]\s*fn (\w+)\(([^)]*)\)\s*(?:->\s*([^;]+))?;\s*\}\s*#\[cfg\(not\(target_arch = "wasm32"\)\)\]\s*unsafe extern "C" fn (\w+)\(([^)]*)\)\s*(?:->\s*([^\{]+))?\{\s*unreachable!\(\)\s*\}"#,
     )
     .unwrap();
     let mut table: Vec<(String, String)> = vec![];
@@ -379,7 +559,20 @@ pub fn patch_rust_bindings(text: &str, nfuncs: usize) -> Result<(String, Vec<(St
     }
     // import wrapper signatures: which parameters are passed by reference
     let mut out = out;
-    for i in 0..nfuncs {
+    for (i, f) in funcs.iter().enumerate() {
+        if f.sink {
+            // exported only: the implementation does nothing with its arguments
+            let skey = format!("  fn s{i}(");
+            let Some(sat) = out.find(&skey) else { return Err(format!("no `--stubs` method s{i} in the bindings")) };
+            const BODY: &str = "{ unreachable!() }";
+            let Some(bat) = out[sat..].find(BODY) else { return Err(format!("no `--stubs` body for s{i}")) };
+            let bat = sat + bat;
+            if out[sat..bat].contains("\n  fn ") {
+                return Err(format!("the `--stubs` method s{i} has no `unreachable!()` body"));
+            }
+            out.replace_range(bat..bat + BODY.len(), "{ }");
+            continue;
+        }
         // the import wrapper `pub fn f<i>(name: type, ..)`: which arguments go by reference
         let key = format!("pub fn f{i}(");
         let Some(at) = out.find(&key) else { return Err(format!("no import wrapper `pub fn f{i}` in the bindings")) };
@@ -420,10 +613,12 @@ fn rust_trampolines(w: &ProxyWorld, pkg: &str) -> String {
         let rs = export_flat_result(w, i);
         let decl: Vec<String> = ps.iter().enumerate().map(|(k, f)| format!("a{k}: {}", rust_flat(*f))).collect();
         let ret = rs.map(|f| format!(" -> {}", rust_flat(f))).unwrap_or_default();
-        s.push_str(&format!("    #[link_name = \"{pkg}/api#f{i}\"]\n    fn __e{i}({}){ret};\n", decl.join(", ")));
+        let ename = w.export_name(i);
+        s.push_str(&format!("    #[link_name = \"{ename}\"]\n    fn __e{i}({}){ret};\n", decl.join(", ")));
         if w.needs_post_return(i) {
-            s.push_str(&format!("    #[link_name = \"cabi_post_{pkg}/api#f{i}\"]\n    fn __p{i}(a0: {});\n", rust_flat(rs.unwrap())));
+            s.push_str(&format!("    #[link_name = \"cabi_post_{ename}\"]\n    fn __p{i}(a0: {});\n", rust_flat(rs.unwrap())));
         }
+        let _ = pkg;
     }
     s.push_str("}\n");
     for i in 0..w.funcs.len() {
@@ -507,7 +702,7 @@ pub fn rust_member(k: usize, world: &ProxyWorld, variant: &str, args: &[&str]) -
         return m;
     };
     let text = String::from_utf8_lossy(b).to_string();
-    match patch_rust_bindings(&text, world.funcs.len()) {
+    match patch_rust_bindings(&text, &world.funcs) {
         Ok((patched, table)) => {
             let glue = format!("{RUST_GLUE_HEAD}\n{}", rust_trampolines(world, "v:w"));
             m.imports = table;
@@ -657,7 +852,13 @@ pub struct Stats {
     pub heap_values: u64,
 }
 
+const IMPORT_DROP: usize = usize::MAX - 1;
+const IMPORT_OTHER: usize = usize::MAX;
+
 struct Ctx {
+    /// own handles the guest currently holds / borrowed handles lent for the current call
+    guest_owns: std::collections::BTreeSet<u32>,
+    lent: std::collections::BTreeSet<u32>,
     world: ProxyWorld,
     /// import id -> function index
     import_func: Vec<usize>,
@@ -743,6 +944,25 @@ fn decode<R>(what: &str, f: impl FnOnce() -> R) -> Option<R> {
 unsafe extern "C" fn host_call(id: u32, args: *const u64, nargs: usize, ret: *mut u64) {
     let args = std::slice::from_raw_parts(args, nargs).to_vec();
     *ret = 0;
+    match ctx(|c| c.import_func.get(id as usize).copied()) {
+        Some(IMPORT_DROP) => {
+            // resource.drop of an own handle
+            let h = args.first().copied().unwrap_or(0) as u32;
+            // A borrow of an imported resource arrives as a handle of its own in the guest's table
+            // (canonical ABI lower_borrow) and has to be released with resource.drop before the
+            // call returns; an own handle is released when its value is dropped.
+            let (owned, lent) = ctx(|c| (c.guest_owns.remove(&h), c.lent.remove(&h)));
+            if !owned && !lent {
+                fail("handle-drop", format!("the guest called resource.drop on handle {h}, which it does not hold (never given to the guest, already dropped, or already handed on)"));
+            }
+            return;
+        }
+        Some(IMPORT_OTHER) => {
+            fail("import-unexpected", format!("import #{id} (a constructor/method of the resource) was called by the forwarding guest"));
+            return;
+        }
+        _ => {}
+    }
     let Some((call, f, func)) = ctx(|c| {
         c.import_seen += 1;
         let f = *c.import_func.get(id as usize)?;
@@ -782,10 +1002,28 @@ unsafe extern "C" fn host_call(id: u32, args: *const u64, nargs: usize, ret: *mu
             if canon(g) != canon(w) {
                 fail("value-changed-export-to-import", format!("parameter {i} of f{f}: the host sent {w:?} into the export, the guest passed {g:?} to the import (type {:?})", func.params[i]));
             }
+            // own handles passed to the import leave the guest; borrows must be handles it holds
+            let mut hs = vec![];
+            handles_of(g, &func.params[i], &mut hs);
+            for (h, own) in hs {
+                let (owned, lent) = ctx(|c| (if own { c.guest_owns.remove(&h) } else { c.guest_owns.contains(&h) }, c.lent.contains(&h)));
+                if own && !owned {
+                    fail("handle-transfer", format!("parameter {i} of import f{f}: the guest passes own handle {h}, which it does not hold (never received, already dropped or already handed on)"));
+                }
+                if !own && !owned && !lent {
+                    fail("handle-transfer", format!("parameter {i} of import f{f}: the guest lends handle {h}, which it neither owns nor was lent"));
+                }
+            }
         }
     }
     // result
     if let (Some(t), Some(v)) = (&func.result, &call.result) {
+        // own handles in the import's result now belong to the guest
+        let mut hs = vec![];
+        handles_of(v, t, &mut hs);
+        ctx(|c| hs.iter().filter(|(_, own)| *own).for_each(|(h, _)| {
+            c.guest_owns.insert(*h);
+        }));
         let mut mem = real_mem();
         if res_flats.len() > 1 {
             let retptr = args[nargs - 1];
@@ -807,11 +1045,19 @@ pub fn run_world(so: &Path, world: &ProxyWorld, imports: &[(String, String)], st
     };
     let mut import_func = vec![];
     for (m, n) in imports {
+        if m == "v:w/t" && n == "[resource-drop]res" {
+            import_func.push(IMPORT_DROP);
+            continue;
+        }
+        if m == "v:w/t" && (n == "[constructor]res" || n == "[method]res.get") {
+            import_func.push(IMPORT_OTHER);
+            continue;
+        }
         if m != "v:w/api" {
-            return vec![("import-name".into(), format!("the bindings import from module `{m}`, the world's interface is `v:w/api`"))];
+            return vec![("import-name".into(), format!("the bindings import `{n}` from module `{m}`, the world's interfaces are `v:w/api` and `v:w/t`"))];
         }
         match n.strip_prefix('f').and_then(|x| x.parse::<usize>().ok()) {
-            Some(i) if i < world.funcs.len() => import_func.push(i),
+            Some(i) if i < world.funcs.len() && !world.funcs[i].sink => import_func.push(i),
             _ => return vec![("import-name".into(), format!("the bindings import `{n}` from `{m}`, which is not a function of the interface"))],
         }
     }
@@ -820,7 +1066,7 @@ pub fn run_world(so: &Path, world: &ProxyWorld, imports: &[(String, String)], st
     let realloc = unsafe { std::mem::transmute(lib.sym("__verif_realloc").expect("glue symbol")) };
     let is_live = unsafe { std::mem::transmute(lib.sym("__verif_is_live").expect("glue symbol")) };
     unsafe { set_host(host_call) };
-    CTX.with(|c| *c.borrow_mut() = Some(Ctx { world: world.clone(), import_func, current: None, failures: vec![], import_seen: 0, realloc: Some(realloc), is_live: Some(is_live), extra_valid: vec![] }));
+    CTX.with(|c| *c.borrow_mut() = Some(Ctx { guest_owns: Default::default(), lent: Default::default(), world: world.clone(), import_func, current: None, failures: vec![], import_seen: 0, realloc: Some(realloc), is_live: Some(is_live), extra_valid: vec![] }));
     let snapshot = || {
         let mut s = [0u64; 4];
         unsafe { stats_fn(s.as_mut_ptr()) };
@@ -831,10 +1077,24 @@ pub fn run_world(so: &Path, world: &ProxyWorld, imports: &[(String, String)], st
         let func = &world.funcs[f];
         let export: unsafe extern "C" fn(*const u64, *mut u64) = unsafe { std::mem::transmute(lib.sym(&format!("__verif_export_{f}")).expect("trampoline")) };
         let before = snapshot();
+        // handles inside the parameters: own ones now belong to the guest, borrows are lent
+        let mut hs = vec![];
+        for (v, t) in call.params.iter().zip(&func.params) {
+            handles_of(v, t, &mut hs);
+        }
         ctx(|c| {
             c.current = Some(call.clone());
             c.import_seen = 0;
             c.extra_valid.clear();
+            c.guest_owns.clear();
+            c.lent.clear();
+            for (h, own) in &hs {
+                if *own {
+                    c.guest_owns.insert(*h);
+                } else {
+                    c.lent.insert(*h);
+                }
+            }
         });
         stats.calls += 1;
         if call.params.iter().zip(&func.params).any(|(_, t)| refabi::has_heap(t)) || func.result.as_ref().map(refabi::has_heap).unwrap_or(false) {
@@ -858,8 +1118,9 @@ pub fn run_world(so: &Path, world: &ProxyWorld, imports: &[(String, String)], st
         unsafe { export(args.as_ptr(), &mut ret) };
         let seen = ctx(|c| c.import_seen);
         stats.import_calls += seen as u64;
-        if seen != 1 {
-            fail("import-call-count", format!("export f{f} called its import {seen} times (the forwarding implementation calls it exactly once)"));
+        let want_calls = if func.sink { 0 } else { 1 };
+        if seen != want_calls {
+            fail("import-call-count", format!("export {} called imports {seen} times (expected {want_calls})", world.export_name(f)));
         }
         // the result
         if let (Some(t), Some(want)) = (&func.result, &call.result) {
@@ -880,6 +1141,14 @@ pub fn run_world(so: &Path, world: &ProxyWorld, imports: &[(String, String)], st
                 if canon(&got) != canon(want) {
                     fail("value-changed-import-to-export", format!("result of f{f}: the import returned {want:?}, the export returned {got:?} (type {t:?})"));
                 }
+                // own handles in the export's result leave the guest
+                let mut hs = vec![];
+                handles_of(&got, t, &mut hs);
+                for (h, own) in hs {
+                    if own && !ctx(|c| c.guest_owns.remove(&h)) {
+                        fail("handle-transfer", format!("result of export f{f}: the guest returns own handle {h}, which it does not hold"));
+                    }
+                }
             }
         }
         if world.needs_post_return(f) {
@@ -888,6 +1157,14 @@ pub fn run_world(so: &Path, world: &ProxyWorld, imports: &[(String, String)], st
             unsafe { post(a.as_ptr()) };
         }
         ctx(|c| c.current = None);
+        // every own handle the guest received was either handed on, returned or dropped
+        let (left, left_lent): (Vec<u32>, Vec<u32>) = ctx(|c| (c.guest_owns.iter().copied().collect(), c.lent.iter().copied().collect()));
+        if !left.is_empty() {
+            fail("handle-leak", format!("after the call of {} the guest still holds own handles {left:?}: they were neither passed on, returned nor dropped", world.export_name(f)));
+        }
+        if !left_lent.is_empty() {
+            fail("handle-leak", format!("the call of {} returned while the borrow handles {left_lent:?} it received were not released with resource.drop (the host traps: borrows outlive the call)", world.export_name(f)));
+        }
         let after = snapshot();
         if after[2] != before[2] {
             fail("heap-misuse", format!("call {f}: {} frees of blocks that are not live (double free, foreign pointer or wrong size) during the call and its post-return", after[2] - before[2]));
